@@ -58,6 +58,10 @@ PROPS = {
                                        "under CBMC within 15 min per harness; the harnesses are kept as c18_x_* in kani/gui but not run)"},
                            LIBM_ASSUME[1:], [])],
     },
+    "C10": {
+        "level": "translation_validation",
+        "units": [SimplifyTVUnit(reuse_only=True)],
+    },
     "C15": {
         "level": "translation_validation",
         "units": [BytecodeTVUnit()],
